@@ -171,7 +171,17 @@ def _build_and_audit(ctx, engine):
             broken = [{"theorem": f"module Props.{prop}", "message": (p.stdout + p.stderr)[-300:]}]
     tr_broken = any("translated" in b["theorem"] for b in broken)
     audit_deps = list(getattr(engine, "THEOREM_DEPS", [])) + ([] if tr_broken else tr_deps)
-    thms_all = common.audit(prop, audit_deps) if not any(b["theorem"].startswith("module") for b in broken) else {}
+    try:
+        thms_all = common.audit(prop, audit_deps) if not any(b["theorem"].startswith("module") for b in broken) else {}
+    except MachineryError:
+        if tr_broken or not tr_deps:
+            raise
+        # a module with theorems about translated code does not load (e.g. it imports another group's module that no longer
+        # builds against the changed source): its obligations are broken, the remaining theorems are still audited
+        broken = list(broken) + [{"theorem": f"translated-code theorems of Props.{d} no longer check", "message": "module does not load"}
+                                 for d in tr_deps]
+        tr_broken = True
+        thms_all = common.audit(prop, list(getattr(engine, "THEOREM_DEPS", [])))
     theorems = common.theorems_of(thms_all, prop)
     for dep in getattr(engine, "THEOREM_DEPS", []):
         theorems.update(common.theorems_of(thms_all, dep))
